@@ -96,8 +96,15 @@ def task_invariant_ideal(task):
         bases = [str(k) for k in ideal.base_to_symbol.keys()]
         basis = list(ideal.compute_basis())
     names = [g for g, _ in task["closed_forms"]]
+    symbolic = sorted(str(b) for b in basis)
+    if task.get("params"):
+        # symbolic program constants: the basis was computed with them as symbols; it is handed on instantiated at a
+        # rational point (the harness instantiates the closed forms at the same point)
+        pt = {sp.Symbol(k): sp.Rational(v) for k, v in task["params"].items()}
+        basis = [sp.expand(sp.sympify(b).subs(pt)) for b in basis]
+        basis = [b for b in basis if b != 0]
     out = _basis_out(basis, names)
-    out.update({"exp_bases": bases, "seconds": round(time.time() - t0, 3)})
+    out.update({"exp_bases": bases, "seconds": round(time.time() - t0, 3), "basis_symbolic_str": symbolic})
     return out
 
 
